@@ -108,8 +108,24 @@ func c12Replay(task engine.SeqTask) (res engine.SeqResult) {
 			dsA := w.Dsm.GetDataset(h.DsName("A"))
 			posBefore := h.ChangePositions(dsA)
 			feedBefore, _ := dsA.GetChanges(0, 0, false)
-			if err := c12Compact(w, h, "A", op.N); err != nil {
-				chk.Fail("C12:compact-error", "compaction failed: "+err.Error())
+			var cerr error
+			func() {
+				defer func() {
+					if r := recover(); r != nil {
+						cerr = fmt.Errorf("compaction panicked: %v", r)
+						c12World = nil
+					}
+				}()
+				cerr = c12Compact(w, h, "A", op.N)
+			}()
+			if cerr != nil {
+				chk.Fail("C12:compact-error", "compaction failed: "+cerr.Error())
+				if c12World == nil {
+					// panicked: the world is not used any further
+					res.Key = "aborted|" + fmt.Sprint(len(task.Hist)) + "|" + chk.Last
+					res.Viol, res.Checks = chk.Viol, chk.Checks
+					return
+				}
 				break
 			}
 			removed := h.M.Compact("A")
